@@ -33,6 +33,7 @@ def make_stub(fi, name, fail_at, complete_at, match, st, exc_type):
             self.calls = 0
             self.seen = []
             self.finished_calls = 0
+            self.raised = False
             self.add_safety_check(fi.SafetyCheck.null())
 
         def eat_chunk(self, chunk):
@@ -40,6 +41,7 @@ def make_stub(fi, name, fail_at, complete_at, match, st, exc_type):
             self.seen.append(st.read_index)
             st.log.append(('feed', name, st.read_index))
             if fail_at and st.read_index == fail_at:
+                self.raised = True
                 # with and without a message: an exception is a failure whatever str() makes of it
                 if (fail_at + len(name)) % 2:
                     raise exc_type()
@@ -158,7 +160,8 @@ def drive(fi, rec, flavour, expected, nchunks, exc_type, rnd, names=('e', 'a', '
         problems.append('close() did not close the source')
     out = {'delivered': len(got), 'consumed': consumed_at_exc, 'exc': exc,
            'fed': {n: sorted(s.seen) for n, s in stubs.items()},
-           'errored': sorted(str(i) for i in w._errored_inspectors)}
+           # the inspectors that failed without being the expected one (observed on the stubs, not read from the wrapper)
+           'errored': sorted(n for n, s in stubs.items() if s.raised and n != expected)}
     return out, problems, st.log
 
 
@@ -348,8 +351,10 @@ def real_traces(ctx, fi):
         combos = combos[:7]
     # allowed_formats: the wrapper runs only the named inspectors (the expected one among them)
     for k in range(3 if quick else 12):
-        exp = rnd.choice(FORMATS + [None]) if k % 3 != 2 else rnd.choice(FORMATS[1:])
+        exp = rnd.choice(FORMATS + [None]) if k % 3 == 0 else (None if k % 3 == 1 else rnd.choice(FORMATS[1:]))
         allowed = sorted(set(rnd.sample(FORMATS, rnd.randint(2, 4)) + ([exp] if exp else [])))
+        if k % 3 == 1:
+            allowed = [rnd.choice(FORMATS[1:])]      # a single allowed format and no expected one: still nobody's failure reaches the reader
         if k % 3 == 2:
             allowed.remove(exp)      # the expected format is not among the allowed ones: no inspector of that name runs
         combos.append((rnd.choice(['file', 'iter']), exp, allowed))
